@@ -23,7 +23,7 @@ MODES = {
 
 
 def vec_key(v):
-    return tuple(v[f] for f in w1.FEATURES)
+    return tuple(v.get(f, 0) for f in w1.FEATURES + w1.EXTRA)
 
 
 def apply(hist):
@@ -42,7 +42,7 @@ def build(D, v, mode, env, log):
 
 def clean_build(job):
     key, mode = job
-    v = dict(zip(w1.FEATURES, key))
+    v = dict(zip(w1.FEATURES + w1.EXTRA, key))
     base = os.path.join(runner.scratch(), 'c01clean-%d' % os.getpid())
     shutil.rmtree(base, ignore_errors=True)
     os.makedirs(base + '/mark')
